@@ -503,3 +503,620 @@ Example C05_getdate_fixed :
   getdate F64 true nan [0; 0; 0] = Ret 1 [0; 0; 0] /\
   getdate F64 true 20000229%float [0; 0; 0] = Ret 0 [2000; 2; 29].
 Proof. exact getdate_fixed_rejects. Qed.
+
+(* ================================================================== *)
+(* SAFE EXECUTION OF THE REGENERATED PROGRAM.  [program] is the MiniC    *)
+(* translation of the C kernels produced from the tree under test on     *)
+(* every run (Gen/KernelsAst.v).  Its interpreter [exec_fun] checks every *)
+(* array access (Err (OOB a i)), every integer division / remainder by   *)
+(* zero (Err DivZero) and every double -> integer conversion (Err        *)
+(* CastRange): a theorem  exec_fun ... = Ok ...  for ALL arguments that  *)
+(* satisfy the Cython wrapper's buffer-length contract says that the     *)
+(* kernel, as written in the tree under test, terminates and does none   *)
+(* of those three things - unlike the theorems above, which are about    *)
+(* hand-written index models.  Signed overflow is NOT modelled by MiniC  *)
+(* (integers are Z): it stays with the models above.  Kernels with a     *)
+(* functional refinement theorem (Props/C06..C17, C0x_kernel_..) get     *)
+(* their safety theorem as a corollary (Proofs/KernelSafety.v); the      *)
+(* others are proved directly (Proofs/Safe{Data,Gis,Stat}.v).            *)
+(* [ext_total X f]: the libm function f is interpreted for every         *)
+(* argument; ADf / ADinf / c_ad_probexactinf reach the untranslated      *)
+(* cPhi (long double) and are covered only on the paths that return      *)
+(* before it.                                                            *)
+(* ================================================================== *)
+From Coq Require Import String Lia.
+From Hy Require Import Base.MiniC Gen.KernelsAst Gen.Consts Model.Grid.
+From Hy Require Proofs.SafeStat Proofs.SafeData Proofs.SafeGis Proofs.KernelSafety Proofs.KernelArmodel Proofs.KernelFlow.
+Import ListNotations.
+Open Scope string_scope.
+Open Scope list_scope.
+Open Scope Z_scope.
+
+Theorem C05_kernel_c_combi :
+  forall (T : Type) (N : NumOps T) (X : NumLit T) (n k : Z) (fuel : nat),
+       (30 < fuel)%nat ->
+       exists ret : Z,
+         exec_fun N X program (S fuel) "c_combi" [AVI n; AVI k] = Ok (RI ret, []) /\
+         ((30 <? k) || (30 <? n - k) = true -> ret = -1).
+Proof. exact @SafeStat.safe_c_combi. Qed.
+Print Assumptions C05_kernel_c_combi.
+
+Theorem C05_kernel_c_olsleverage :
+  forall (T : Type) (N : NumOps T) (X : NumLit T) (nval np : Z) (P Xi L : list T) (fuel : nat),
+       (0 < nval -> 0 < np -> nval * np <= zlen P /\ np * np <= zlen Xi /\ nval <= zlen L) ->
+       (Z.to_nat nval < fuel)%nat ->
+       (Z.to_nat np < fuel)%nat ->
+       exists L' : list T,
+         exec_fun N X program (S fuel) "c_olsleverage"
+           [AVI nval; AVI np; AVArrF P; AVArrF Xi; AVArrF L] =
+         Ok (RI 0, [VArrF P; VArrF Xi; VArrF L']) /\ Datatypes.length L' = Datatypes.length L.
+Proof. exact @SafeStat.safe_c_olsleverage. Qed.
+Print Assumptions C05_kernel_c_olsleverage.
+
+Theorem C05_kernel_ad_compare :
+  forall (T : Type) (N : NumOps T) (X : NumLit T) (a b : T) (r1 r2 : list T) (fuel : nat),
+       exists c : Z,
+         exec_fun N X program (S fuel) "c_andersondarling.compare"
+           [AVArrF (a :: r1); AVArrF (b :: r2)] = Ok (RI c, [VArrF (a :: r1); VArrF (b :: r2)]) /\
+         -1 <= c <= 1.
+Proof. exact @SafeStat.safe_ad_compare. Qed.
+Print Assumptions C05_kernel_ad_compare.
+
+Theorem C05_kernel_adinf :
+  forall (T : Type) (N : NumOps T) (X : NumLit T) (z : T) (fuel : nat),
+       SafeStat.ext_total X "exp" ->
+       exists r : T, exec_fun N X program (S fuel) "adinf" [AVF z] = Ok (RF r, []).
+Proof. exact @SafeStat.safe_adinf. Qed.
+Print Assumptions C05_kernel_adinf.
+
+Theorem C05_kernel_errfix :
+  forall (T : Type) (N : NumOps T) (X : NumLit T) (n : Z) (x : T) (fuel : nat),
+       exists r : T, exec_fun N X program (S fuel) "errfix" [AVI n; AVF x] = Ok (RF r, []).
+Proof. exact @SafeStat.safe_errfix. Qed.
+Print Assumptions C05_kernel_errfix.
+
+Theorem C05_kernel_AD :
+  forall (T : Type) (N : NumOps T) (X : NumLit T) (n : Z) (z : T) (fuel : nat),
+       SafeStat.ext_total X "exp" ->
+       (0 < fuel)%nat ->
+       exists r : T, exec_fun N X program (S fuel) "AD" [AVI n; AVF z] = Ok (RF r, []).
+Proof. exact @SafeStat.safe_AD. Qed.
+Print Assumptions C05_kernel_AD.
+
+Theorem C05_kernel_ADtest :
+  forall (T : Type) (N : NumOps T) (X : NumLit T) (n : Z) (x outs : list T) (fuel : nat),
+       SafeStat.ext_total X "exp" ->
+       SafeStat.ext_total X "log" ->
+       n <= zlen x ->
+       2 <= zlen outs ->
+       (Z.to_nat n < fuel)%nat ->
+       (1 < fuel)%nat ->
+       exists (code : Z) (outs' : list T),
+         exec_fun N X program (S fuel) "ADtest" [AVI n; AVArrF x; AVArrF outs] =
+         Ok (RI code, [VArrF x; VArrF outs']) /\
+         0 <= code /\ Datatypes.length outs' = Datatypes.length outs.
+Proof. exact @SafeStat.safe_ADtest. Qed.
+Print Assumptions C05_kernel_ADtest.
+
+Theorem C05_kernel_c_ad_test :
+  forall (T : Type) (N : NumOps T) (X : NumLit T) (nval : Z) (unifdata outs : list T)
+         (fuel : nat),
+       SafeStat.ext_total X "exp" ->
+       SafeStat.ext_total X "log" ->
+       0 <= nval <= zlen unifdata ->
+       2 <= zlen outs ->
+       (S (Z.to_nat nval) < fuel)%nat ->
+       (2 < fuel)%nat ->
+       exists (code : Z) (data' outs' : list T),
+         exec_fun N X program (S fuel) "c_ad_test" [AVI nval; AVArrF unifdata; AVArrF outs] =
+         Ok (RI code, [VArrF data'; VArrF outs']) /\
+         0 <= code /\
+         Datatypes.length data' = Datatypes.length unifdata /\
+         Datatypes.length outs' = Datatypes.length outs.
+Proof. exact @SafeStat.safe_c_ad_test. Qed.
+Print Assumptions C05_kernel_c_ad_test.
+
+Theorem C05_kernel_c_ad_probapproxinf :
+  forall (T : Type) (N : NumOps T) (X : NumLit T) (nval : Z) (U P : list T) (fuel : nat),
+       SafeStat.ext_total X "exp" ->
+       nval <= zlen U ->
+       nval <= zlen P ->
+       (Z.to_nat nval < fuel)%nat ->
+       (0 < fuel)%nat ->
+       exists P' : list T,
+         exec_fun N X program (S fuel) "c_ad_probapproxinf" [AVI nval; AVArrF U; AVArrF P] =
+         Ok (RI 0, [VArrF U; VArrF P']) /\ Datatypes.length P' = Datatypes.length P.
+Proof. exact @SafeStat.safe_c_ad_probapproxinf. Qed.
+Print Assumptions C05_kernel_c_ad_probapproxinf.
+
+Theorem C05_kernel_c_ad_probn :
+  forall (T : Type) (N : NumOps T) (X : NumLit T) (nval nsample : Z) 
+         (U P : list T) (fuel : nat),
+       SafeStat.ext_total X "exp" ->
+       nval <= zlen U ->
+       nval <= zlen P ->
+       (Z.to_nat nval < fuel)%nat ->
+       (1 < fuel)%nat ->
+       exists P' : list T,
+         exec_fun N X program (S fuel) "c_ad_probn" [AVI nval; AVI nsample; AVArrF U; AVArrF P] =
+         Ok (RI 0, [VArrF U; VArrF P']) /\ Datatypes.length P' = Datatypes.length P.
+Proof. exact @SafeStat.safe_c_ad_probn. Qed.
+Print Assumptions C05_kernel_c_ad_probn.
+
+Theorem C05_kernel_ADf_early :
+  forall (T : Type) (N : NumOps T) (X : NumLit T) (z : T) (j : Z) (fuel : nat),
+       nltb N (SafeStat.lit_150 X) (SafeStat.adf_t N X z j) = true ->
+       exec_fun N X program (S fuel) "ADf" [AVF z; AVI j] = Ok (RF (SafeStat.lit_0 X), []).
+Proof. exact @SafeStat.safe_ADf_early. Qed.
+Print Assumptions C05_kernel_ADf_early.
+
+Theorem C05_kernel_unsafe_ADf_cPhi :
+  forall (T : Type) (N : NumOps T) (X : NumLit T) (z : T) (j : Z) (fuel : nat),
+       SafeStat.ext_total X "exp" ->
+       (0 < fuel)%nat ->
+       nltb N (SafeStat.lit_150 X) (SafeStat.adf_t N X z j) = false ->
+       exec_fun N X program (S fuel) "ADf" [AVF z; AVI j] = Err (NoFun "cPhi").
+Proof. exact @SafeStat.unsafe_ADf_cPhi. Qed.
+Print Assumptions C05_kernel_unsafe_ADf_cPhi.
+
+Theorem C05_kernel_ADinf_small :
+  forall (T : Type) (N : NumOps T) (X : NumLit T) (z : T) (fuel : nat),
+       nltb N z (SafeStat.lit_001 X) = true ->
+       exec_fun N X program (S fuel) "ADinf" [AVF z] = Ok (RF (SafeStat.lit_0 X), []).
+Proof. exact @SafeStat.safe_ADinf_small. Qed.
+Print Assumptions C05_kernel_ADinf_small.
+
+Theorem C05_kernel_c_ad_probexactinf_small :
+  forall (T : Type) (N : NumOps T) (X : NumLit T) (nval : Z) (U P : list T) (fuel : nat),
+       (forall (i : Z) (u : T),
+        0 <= i < nval -> zget U i = Some u -> nltb N u (SafeStat.lit_001 X) = true) ->
+       nval <= zlen U ->
+       nval <= zlen P ->
+       (Z.to_nat nval < fuel)%nat ->
+       (0 < fuel)%nat ->
+       exists P' : list T,
+         exec_fun N X program (S fuel) "c_ad_probexactinf" [AVI nval; AVArrF U; AVArrF P] =
+         Ok (RI 0, [VArrF U; VArrF P']) /\ Datatypes.length P' = Datatypes.length P.
+Proof. exact @SafeStat.safe_c_ad_probexactinf_small. Qed.
+Print Assumptions C05_kernel_c_ad_probexactinf_small.
+
+Theorem C05_kernel_c_dateutils_isleapyear :
+  forall (T : Type) (N : NumOps T) (X : NumLit T) (year : Z) (n : nat),
+       exec_fun N X program (S n) "c_dateutils_isleapyear" [AVI year] =
+       Ok (RI (b2z (Dutils.is_leap year)), []).
+Proof. exact @SafeData.safe_c_dateutils_isleapyear. Qed.
+Print Assumptions C05_kernel_c_dateutils_isleapyear.
+
+Theorem C05_kernel_c_dateutils_daysinmonth :
+  forall (T : Type) (N : NumOps T) (X : NumLit T) (year month : Z) (n : nat),
+       (0 < n)%nat ->
+       exec_fun N X program (S n) "c_dateutils_daysinmonth" [AVI year; AVI month] =
+       Ok (RI (Dutils.days_in_month year month), []).
+Proof. exact @SafeData.safe_c_dateutils_daysinmonth. Qed.
+Print Assumptions C05_kernel_c_dateutils_daysinmonth.
+
+Theorem C05_kernel_c_dateutils_dayofyear :
+  forall (T : Type) (N : NumOps T) (X : NumLit T) (month day : Z) (n : nat),
+       exec_fun N X program (S n) "c_dateutils_dayofyear" [AVI month; AVI day] =
+       Ok (RI (SafeData.day_of_year month day), []).
+Proof. exact @SafeData.safe_c_dateutils_dayofyear. Qed.
+Print Assumptions C05_kernel_c_dateutils_dayofyear.
+
+Theorem C05_kernel_c_dateutils_add1month :
+  forall (T : Type) (N : NumOps T) (X : NumLit T) (y m d : Z) (rest : list Z) (n : nat),
+       (1 < n)%nat ->
+       exists (ret : Z) (out : list Z),
+         exec_fun N X program (S n) "c_dateutils_add1month" [AVArrI (y :: m :: d :: rest)] =
+         Ok (RI ret, [VArrI out]) /\
+         Datatypes.length out = Datatypes.length (y :: m :: d :: rest) /\
+         (if negb (m <? 12) && (y =? SafeData.INT_MAX)
+          then 0 < ret /\ out = y :: m :: d :: rest
+          else
+           match Dutils.c_add1month (y, m, d) with
+           | Some (y', m', d') => ret = 0 /\ out = y' :: m' :: d' :: rest
+           | None => 0 < ret /\ out = y :: m + 1 :: d :: rest
+           end).
+Proof. exact @SafeData.safe_c_dateutils_add1month. Qed.
+Print Assumptions C05_kernel_c_dateutils_add1month.
+
+Theorem C05_kernel_c_dateutils_add1day :
+  forall (T : Type) (N : NumOps T) (X : NumLit T) (y m d : Z) (rest : list Z) (n : nat),
+       (1 < n)%nat ->
+       exists (ret : Z) (out : list Z),
+         exec_fun N X program (S n) "c_dateutils_add1day" [AVArrI (y :: m :: d :: rest)] =
+         Ok (RI ret, [VArrI out]) /\
+         Datatypes.length out = Datatypes.length (y :: m :: d :: rest) /\
+         match Dutils.c_add1day (y, m, d) with
+         | Some (y', m', d') =>
+             if (d =? Dutils.days_in_month y m) && negb (m <? 12) && (y =? SafeData.INT_MAX)
+             then 0 < ret /\ out = y :: m :: 1 :: rest
+             else ret = 0 /\ out = y' :: m' :: d' :: rest
+         | None => 0 < ret /\ out = y :: m :: d :: rest
+         end.
+Proof. exact @SafeData.safe_c_dateutils_add1day. Qed.
+Print Assumptions C05_kernel_c_dateutils_add1day.
+
+Theorem C05_kernel_c_dateutils_comparedates :
+  forall (T : Type) (N : NumOps T) (X : NumLit T) (a0 a1 a2 : Z) (r1 : list Z) 
+         (b0 b1 b2 : Z) (r2 : list Z) (n : nat),
+       exec_fun N X program (S n) "c_dateutils_comparedates"
+         [AVArrI (a0 :: a1 :: a2 :: r1); AVArrI (b0 :: b1 :: b2 :: r2)] =
+       Ok
+         (RI (SafeData.compare_dates a0 a1 a2 b0 b1 b2),
+          [VArrI (a0 :: a1 :: a2 :: r1); VArrI (b0 :: b1 :: b2 :: r2)]).
+Proof. exact @SafeData.safe_c_dateutils_comparedates. Qed.
+Print Assumptions C05_kernel_c_dateutils_comparedates.
+
+Theorem C05_kernel_c_dateutils_getdate_reject :
+  forall (T : Type) (N : NumOps T) (X : NumLit T) (day : T) (date : list Z) (n : nat),
+       SafeData.getdate_reject N X day = true ->
+       exists ret : Z,
+         exec_fun N X program (S n) "c_dateutils_getdate" [AVF day; AVArrI date] =
+         Ok (RI ret, [VArrI date]) /\ 0 < ret.
+Proof. exact @SafeData.safe_c_dateutils_getdate_reject. Qed.
+Print Assumptions C05_kernel_c_dateutils_getdate_reject.
+
+Theorem C05_kernel_c_dateutils_getdate :
+  forall (T : Type) (N : NumOps T) (X : NumLit T) (day : T) (y0 m0 d0 : Z) 
+         (rest : list Z) (n : nat),
+       SafeData.getdate_casts_defined N X ->
+       (1 < n)%nat ->
+       exists (ret : Z) (out : list Z),
+         exec_fun N X program (S n) "c_dateutils_getdate"
+           [AVF day; AVArrI (y0 :: m0 :: d0 :: rest)] = Ok (RI ret, [VArrI out]) /\
+         Datatypes.length out = Datatypes.length (y0 :: m0 :: d0 :: rest).
+Proof. exact @SafeData.safe_c_dateutils_getdate. Qed.
+Print Assumptions C05_kernel_c_dateutils_getdate.
+
+Theorem C05_kernel_c_dateutils_getdate_RN :
+  forall (day : option R) (y0 m0 d0 : Z) (rest : list Z) (n : nat),
+       (1 < n)%nat ->
+       exists (ret : Z) (out : list Z),
+         exec_fun RN XRN program (S n) "c_dateutils_getdate"
+           [AVF day; AVArrI (y0 :: m0 :: d0 :: rest)] = Ok (RI ret, [VArrI out]) /\
+         Datatypes.length out = Datatypes.length (y0 :: m0 :: d0 :: rest).
+Proof. exact @SafeData.safe_c_dateutils_getdate_RN. Qed.
+Print Assumptions C05_kernel_c_dateutils_getdate_RN.
+
+Theorem C05_kernel_c_dateutils_getdate_RR :
+  forall (day : R) (y0 m0 d0 : Z) (rest : list Z) (n : nat),
+       (1 < n)%nat ->
+       exists (ret : Z) (out : list Z),
+         exec_fun RR XRR program (S n) "c_dateutils_getdate"
+           [AVF day; AVArrI (y0 :: m0 :: d0 :: rest)] = Ok (RI ret, [VArrI out]) /\
+         Datatypes.length out = Datatypes.length (y0 :: m0 :: d0 :: rest).
+Proof. exact @SafeData.safe_c_dateutils_getdate_RR. Qed.
+Print Assumptions C05_kernel_c_dateutils_getdate_RR.
+
+Theorem C05_kernel_c_islin :
+  forall (T : Type) (N : NumOps T) (X : NumLit T) (thresh tol : T) 
+         (npoints : Z) (data : list T) (il : list Z) (n : nat),
+       Datatypes.length il = Datatypes.length data ->
+       (Datatypes.length data < n)%nat ->
+       exists out : list Z,
+         exec_fun N X program (S n) "c_islin"
+           [AVI (zlen data); AVF thresh; AVF tol; AVI npoints; AVArrF data; AVArrI il] =
+         Ok (RI 0, [VArrF data; VArrI out]) /\ Datatypes.length out = Datatypes.length data.
+Proof. exact @SafeData.safe_c_islin. Qed.
+Print Assumptions C05_kernel_c_islin.
+
+Theorem C05_kernel_c_eckhardt :
+  forall (T : Type) (N : NumOps T) (X : NumLit T) (tt : Z) (thresh tau bfi : T)
+         (inputs outputs : list T) (n : nat),
+       (forall v : T, next X "exp" [v] <> None) ->
+       Datatypes.length outputs = Datatypes.length inputs ->
+       (Datatypes.length inputs < n)%nat ->
+       exists (ret : Z) (out : list T),
+         exec_fun N X program (S n) "c_eckhardt"
+           [AVI (zlen inputs); AVI tt; AVF thresh; AVF tau; AVF bfi; AVArrF inputs; AVArrF outputs] =
+         Ok (RI ret, [VArrF inputs; VArrF out]) /\
+         Datatypes.length out = Datatypes.length inputs /\ (ret = 0 \/ ret = 33).
+Proof. exact @SafeData.safe_c_eckhardt. Qed.
+Print Assumptions C05_kernel_c_eckhardt.
+
+Theorem C05_kernel_celldist :
+  forall (T : Type) (N : NumOps T) (X : NumLit T) (nrows ncols n1 n2 : Z) (n : nat),
+       (0 < n)%nat ->
+       exists ret : Z,
+         exec_fun N X program (S n) "celldist" [AVI nrows; AVI ncols; AVI n1; AVI n2] =
+         Ok (RI ret, []) /\
+         (if (n1 <? 0) || (nrows * ncols <=? n1) || (n2 <? 0) || (nrows * ncols <=? n2)
+          then 0 < ret
+          else ret = SafeGis.celldist_spec nrows ncols n1 n2).
+Proof. exact @SafeGis.safe_celldist. Qed.
+Print Assumptions C05_kernel_celldist.
+
+Theorem C05_kernel_stepsquaredist :
+  forall (T : Type) (N : NumOps T) (X : NumLit T) (ncols n1 n2 : Z) (n : nat),
+       ncols <> 0 ->
+       (0 < n)%nat ->
+       exec_fun N X program (S n) "c_catchment.stepsquaredist" [AVI ncols; AVI n1; AVI n2] =
+       Ok
+         (RF
+            (nofZ N
+               (if (getnx ncols n1 =? getnx ncols n2) || (getny ncols n1 =? getny ncols n2)
+                then 1
+                else 2)), []).
+Proof. exact @SafeGis.safe_stepsquaredist. Qed.
+Print Assumptions C05_kernel_stepsquaredist.
+
+Theorem C05_kernel_exclude_zero_area_boundary :
+  forall (T : Type) (N : NumOps T) (X : NumLit T) (deteps : T) (xy : list T) 
+         (idxok : list Z) (n : nat),
+       Datatypes.length xy = (2 * Datatypes.length idxok)%nat ->
+       (Datatypes.length idxok < n)%nat ->
+       exists (ret : retval T) (outs : list (arrval T)),
+         exec_fun N X program (S n) "c_exclude_zero_area_boundary"
+           [AVI (zlen idxok); AVF deteps; AVArrF xy; AVArrI idxok] = Ok (ret, outs) /\
+         (exists (c : Z) (idxok' : list Z),
+            ret = RI c /\
+            outs = [VArrF xy; VArrI idxok'] /\
+            Datatypes.length idxok' = Datatypes.length idxok /\
+            (if zlen idxok <=? 2
+             then 0 < c /\ idxok' = idxok
+             else c = 0 /\ idxok' = repeat 1 (Datatypes.length idxok))).
+Proof. exact @SafeGis.safe_exclude_zero_area_boundary. Qed.
+Print Assumptions C05_kernel_exclude_zero_area_boundary.
+
+Theorem C05_kernel_slope :
+  forall (T : Type) (N : NumOps T) (X : NumLit T) (nrows ncols nprint : Z) 
+         (cellsize : T) (code flowdir : list Z) (altitude slopeval : list T) 
+         (n : nat),
+       Datatypes.length code = 9%nat ->
+       Z.of_nat (Datatypes.length flowdir) = nrows * ncols ->
+       Datatypes.length altitude = Datatypes.length flowdir ->
+       Datatypes.length slopeval = Datatypes.length flowdir ->
+       (Datatypes.length flowdir + 10 < n)%nat ->
+       exists (ret : retval T) (outs : list (arrval T)),
+         exec_fun N X program (S n) "c_slope"
+           [AVI nrows; AVI ncols; AVI nprint; AVF cellsize; AVArrI code; 
+            AVArrI flowdir; AVArrF altitude; AVArrF slopeval] = Ok (ret, outs) /\
+         (exists (c : Z) (slopeval' : list T),
+            ret = RI c /\
+            outs = [VArrI code; VArrI flowdir; VArrF altitude; VArrF slopeval'] /\
+            Datatypes.length slopeval' = Datatypes.length slopeval /\
+            (if nrows <? 1 then 0 < c /\ slopeval' = slopeval else c = 0)).
+Proof. exact @SafeGis.safe_slope. Qed.
+Print Assumptions C05_kernel_slope.
+
+Theorem C05_kernel_slice :
+  forall (T : Type) (N : NumOps T) (X : NumLit T) (nrows ncols : Z) 
+         (xll yll csz : T) (data xys zs : list T) (n : nat),
+       SafeGis.floor_total X ->
+       SafeGis.trunc_ok N nrows ->
+       SafeGis.trunc_ok N ncols ->
+       Z.of_nat (Datatypes.length data) = nrows * ncols ->
+       Datatypes.length xys = (2 * Datatypes.length zs)%nat ->
+       (Datatypes.length zs + 2 < n)%nat ->
+       exists (ret : retval T) (outs : list (arrval T)),
+         exec_fun N X program (S n) "c_slice"
+           [AVI nrows; AVI ncols; AVF xll; AVF yll; AVF csz; AVArrF data; 
+            AVI (zlen zs); AVArrF xys; AVArrF zs] = Ok (ret, outs) /\
+         ret = RI 0 /\
+         (exists zs' : list T,
+            outs = [VArrF data; VArrF xys; VArrF zs'] /\ Datatypes.length zs' = Datatypes.length zs).
+Proof. exact @SafeGis.safe_slice. Qed.
+Print Assumptions C05_kernel_slice.
+
+Theorem C05_kernel_slice_reals_with_nan :
+  forall (nrows ncols : Z) (xll yll csz : option R) (data xys zs : list (option R)) (n : nat),
+       0 <= nrows <= SafeGis.MAXLL ->
+       0 <= ncols <= SafeGis.MAXLL ->
+       Z.of_nat (Datatypes.length data) = nrows * ncols ->
+       Datatypes.length xys = (2 * Datatypes.length zs)%nat ->
+       (Datatypes.length zs + 2 < n)%nat ->
+       exists (ret : retval (option R)) (outs : list (arrval (option R))),
+         exec_fun RN XRN program (S n) "c_slice"
+           [AVI nrows; AVI ncols; AVF xll; AVF yll; AVF csz; AVArrF data; 
+            AVI (zlen zs); AVArrF xys; AVArrF zs] = Ok (ret, outs) /\
+         ret = RI 0 /\
+         (exists zs' : list (option R),
+            outs = [VArrF data; VArrF xys; VArrF zs'] /\ Datatypes.length zs' = Datatypes.length zs).
+Proof. exact @SafeGis.safe_slice_reals_with_nan. Qed.
+Print Assumptions C05_kernel_slice_reals_with_nan.
+
+Theorem C05_kernel_delineate_boundary :
+  forall (T : Type) (N : NumOps T) (X : NumLit T) (nrows ncols : Z)
+         (area buffer mask bnd : list Z) (n : nat),
+       Datatypes.length buffer = Datatypes.length area ->
+       Datatypes.length bnd = Datatypes.length area ->
+       Z.of_nat (Datatypes.length mask) = nrows * ncols ->
+       SafeGis.perc_ok N X (Z.of_nat (Datatypes.length area)) ->
+       (Datatypes.length area + 4 < n)%nat ->
+       exists (ret : retval T) (outs : list (arrval T)),
+         exec_fun N X program (S n) "c_delineate_boundary"
+           [AVI nrows; AVI ncols; AVI (zlen area); AVArrI area; AVArrI buffer; 
+            AVArrI mask; AVArrI bnd] = Ok (ret, outs) /\
+         (exists (c : Z) (area' buffer' bnd' : list Z),
+            ret = RI c /\
+            0 <= c /\
+            outs = [VArrI area'; VArrI buffer'; VArrI mask; VArrI bnd'] /\
+            Datatypes.length area' = Datatypes.length area /\
+            Datatypes.length buffer' = Datatypes.length buffer /\
+            Datatypes.length bnd' = Datatypes.length bnd).
+Proof. exact @SafeGis.safe_delineate_boundary. Qed.
+Print Assumptions C05_kernel_delineate_boundary.
+
+Theorem C05_kernel_delineate_boundary_reals :
+  forall (nrows ncols : Z) (area buffer mask bnd : list Z) (n : nat),
+       Datatypes.length buffer = Datatypes.length area ->
+       Datatypes.length bnd = Datatypes.length area ->
+       Z.of_nat (Datatypes.length mask) = nrows * ncols ->
+       Z.of_nat (Datatypes.length area) < SafeGis.MAXLL ->
+       (Datatypes.length area + 4 < n)%nat ->
+       exists (ret : retval R) (outs : list (arrval R)),
+         exec_fun RR XRR program (S n) "c_delineate_boundary"
+           [AVI nrows; AVI ncols; AVI (zlen area); AVArrI area; AVArrI buffer; 
+            AVArrI mask; AVArrI bnd] = Ok (ret, outs) /\
+         (exists (c : Z) (area' buffer' bnd' : list Z),
+            ret = RI c /\
+            0 <= c /\
+            outs = [VArrI area'; VArrI buffer'; VArrI mask; VArrI bnd'] /\
+            Datatypes.length area' = Datatypes.length area /\
+            Datatypes.length buffer' = Datatypes.length buffer /\
+            Datatypes.length bnd' = Datatypes.length bnd).
+Proof. exact @SafeGis.safe_delineate_boundary_reals. Qed.
+Print Assumptions C05_kernel_delineate_boundary_reals.
+
+Theorem C05_kernel_c_cell2rowcol :
+  forall (T : Type) (N : NumOps T) (X : NumLit T) (nrows ncols : Z) 
+         (idx buf : list Z) (n : nat),
+       Datatypes.length buf = (2 * Datatypes.length idx)%nat ->
+       (Datatypes.length idx < n)%nat ->
+       exists out : list Z,
+         exec_fun N X program (S n) "c_cell2rowcol"
+           [AVI nrows; AVI ncols; AVI (zlen idx); AVArrI idx; AVArrI buf] =
+         Ok (RI 0, [VArrI idx; VArrI out]).
+Proof. exact @KernelSafety.safe_c_cell2rowcol. Qed.
+Print Assumptions C05_kernel_c_cell2rowcol.
+
+Theorem C05_kernel_c_cell2coord :
+  forall (T : Type) (N : NumOps T) (X : NumLit T) (nrows ncols : Z) 
+         (xll yll csz : T) (idx : list Z) (buf : list T) (n : nat),
+       RefineGridGeom.half_law N X ->
+       Datatypes.length buf = (2 * Datatypes.length idx)%nat ->
+       (Datatypes.length idx < n)%nat ->
+       exists out : list T,
+         exec_fun N X program (S n) "c_cell2coord"
+           [AVI nrows; AVI ncols; AVF xll; AVF yll; AVF csz; AVI (zlen idx); AVArrI idx; AVArrF buf] =
+         Ok (RI 0, [VArrI idx; VArrF out]).
+Proof. exact @KernelSafety.safe_c_cell2coord. Qed.
+Print Assumptions C05_kernel_c_cell2coord.
+
+Theorem C05_kernel_c_coord2cell :
+  forall (T : Type) (N : NumOps T) (X : NumLit T) (cmax : Z),
+       RefineGridGeom.floor_laws N X cmax ->
+       forall (nrows ncols : Z) (xll yll csz : T) (xy : list T) (buf : list Z) (n : nat),
+       nrows <= cmax ->
+       ncols <= cmax ->
+       Datatypes.length xy = (2 * Datatypes.length buf)%nat ->
+       (Datatypes.length buf < n)%nat ->
+       exists out : list Z,
+         exec_fun N X program (S n) "c_coord2cell"
+           [AVI nrows; AVI ncols; AVF xll; AVF yll; AVF csz; AVI (zlen buf); AVArrF xy; AVArrI buf] =
+         Ok (RI 0, [VArrF xy; VArrI out]).
+Proof. exact @KernelSafety.safe_c_coord2cell. Qed.
+Print Assumptions C05_kernel_c_coord2cell.
+
+Theorem C05_kernel_c_neighbours :
+  forall (T : Type) (N : NumOps T) (X : NumLit T) (nrows ncols idx : Z) 
+         (nb : list Z) (n : nat),
+       Datatypes.length nb = 9%nat ->
+       (3 < n)%nat ->
+       exists (r : Z) (out : list Z),
+         exec_fun N X program (S n) "c_neighbours" [AVI nrows; AVI ncols; AVI idx; AVArrI nb] =
+         Ok (RI r, [VArrI out]).
+Proof. exact @KernelSafety.safe_c_neighbours. Qed.
+Print Assumptions C05_kernel_c_neighbours.
+
+Theorem C05_kernel_c_aggregate :
+  forall (T : Type) (N : NumOps T) (X : NumLit T),
+       nofZ N 0 = n0 N ->
+       forall (op maxnan : Z) (idx : list Z) (xs outbuf : list T) (ie : Z) (n : nat),
+       Datatypes.length xs = Datatypes.length idx ->
+       Datatypes.length outbuf = Datatypes.length idx ->
+       (Datatypes.length idx < n)%nat ->
+       exists (r : Z) (out : list T) (ie' : Z),
+         exec_fun N X program (S n) "c_aggregate"
+           [AVI (zlen idx); AVI op; AVI maxnan; AVArrI idx; AVArrF xs; AVArrF outbuf; AVArrI [ie]] =
+         Ok (RI r, [VArrI idx; VArrF xs; VArrF out; VArrI [ie']]).
+Proof. exact @KernelSafety.safe_c_aggregate. Qed.
+Print Assumptions C05_kernel_c_aggregate.
+
+Theorem C05_kernel_c_flathomogen :
+  forall (T : Type) (N : NumOps T) (X : NumLit T),
+       nofZ N 0 = n0 N ->
+       forall (maxnan : Z) (idx : list Z) (xs outbuf : list T) (n : nat),
+       Datatypes.length xs = Datatypes.length idx ->
+       Datatypes.length outbuf = Datatypes.length idx ->
+       (Datatypes.length idx < n)%nat ->
+       exists (r : Z) (out : list T),
+         exec_fun N X program (S n) "c_flathomogen"
+           [AVI (zlen idx); AVI maxnan; AVArrI idx; AVArrF xs; AVArrF outbuf] =
+         Ok (RI r, [VArrI idx; VArrF xs; VArrF out]).
+Proof. exact @KernelSafety.safe_c_flathomogen. Qed.
+Print Assumptions C05_kernel_c_flathomogen.
+
+Theorem C05_kernel_c_accumulate :
+  forall (T : Type) (N : NumOps T) (X : NumLit T) (nrows ncols nprint maxcells : Z)
+         (nodata : T) (fd : list Z) (field : list T) (n : nat),
+       Datatypes.length fd = Z.to_nat (nrows * ncols) ->
+       Datatypes.length field = Z.to_nat (nrows * ncols) ->
+       (Nat.max (Nat.max (Z.to_nat (nrows * ncols)) (Z.to_nat (maxcells + 1))) 10 < n)%nat ->
+       exists (r : Z) (out : list T),
+         exec_fun N X program (S n) "c_accumulate"
+           [AVI nrows; AVI ncols; AVI nprint; AVI maxcells; AVF nodata; 
+            AVArrI FLOWDIRCODE; AVArrI fd; AVArrF field; AVArrF field] =
+         Ok (RI r, [VArrI FLOWDIRCODE; VArrI fd; VArrF field; VArrF out]).
+Proof. exact @KernelSafety.safe_c_accumulate. Qed.
+Print Assumptions C05_kernel_c_accumulate.
+
+Theorem C05_kernel_c_inside :
+  forall (T : Type) (N : NumOps T) (X : NumLit T) (nprint : Z) (pts poly : list (T * T))
+         (atol xl0 xl1 yl0 yl1 : T) (ins : list Z) (n : nat),
+       Datatypes.length ins = Datatypes.length pts ->
+       poly <> [] ->
+       (Datatypes.length pts < n)%nat ->
+       (Datatypes.length poly < n)%nat ->
+       exists out : list Z,
+         exec_fun N X program (S n) "c_inside"
+           [AVI nprint; AVI (zlen pts); AVArrF (RefinePolygon.flat pts); 
+            AVI (zlen poly); AVArrF (RefinePolygon.flat poly); AVF atol; 
+            AVArrF [xl0; xl1]; AVArrF [yl0; yl1]; AVArrI ins] =
+         Ok
+           (RI 0,
+            [VArrF (RefinePolygon.flat pts); VArrF (RefinePolygon.flat poly); 
+             VArrF [xl0; xl1]; VArrF [yl0; yl1]; VArrI out]).
+Proof. exact @KernelSafety.safe_c_inside. Qed.
+Print Assumptions C05_kernel_c_inside.
+
+Theorem C05_kernel_c_var2h_RN :
+  forall (P rain disp maxgap hstart : Z) (sec : list Z) (vals hinit : list (option R))
+         (n : nat),
+       Datatypes.length vals = Datatypes.length sec ->
+       (Nat.max (Datatypes.length sec) (Datatypes.length hinit) < n)%nat ->
+       exists (r : Z) (h : list (option R)),
+         exec_fun RN XRN program (S n) "c_var2h"
+           (RefineVar2h.var2h_args P rain disp maxgap hstart sec vals hinit) =
+         Ok (RI r, [VArrI sec; VArrF vals; VArrF h]).
+Proof. exact @KernelSafety.safe_c_var2h_RN. Qed.
+Print Assumptions C05_kernel_c_var2h_RN.
+
+Theorem C05_kernel_armodel_memsafe :
+  forall (T : Type) (N : NumOps T) (X : NumLit T) (m ini : T) (params s buf : list T)
+         (n : nat),
+       nofZ N 0 = n0 N ->
+       Datatypes.length buf = Datatypes.length s ->
+       (Nat.max (Datatypes.length s) 10 < n)%nat ->
+       (exists (r : Z) (out : list T),
+          exec_fun N X program (S n) "c_armodel_sim"
+            [AVI (zlen s); AVI (zlen params); AVF m; AVF ini; AVArrF params; AVArrF s; AVArrF buf] =
+          Ok (RI r, [VArrF params; VArrF s; VArrF out]) /\
+          Datatypes.length out = Datatypes.length s) /\
+       (exists (r : Z) (out : list T),
+          exec_fun N X program (S n) "c_armodel_residual"
+            [AVI (zlen s); AVI (zlen params); AVF m; AVF ini; AVArrF params; AVArrF s; AVArrF buf] =
+          Ok (RI r, [VArrF params; VArrF s; VArrF out]) /\
+          Datatypes.length out = Datatypes.length s).
+Proof. exact @KernelArmodel.kernel_armodel_memsafe. Qed.
+Print Assumptions C05_kernel_armodel_memsafe.
+
+Theorem C05_kernel_flow_memsafe :
+  forall (T : Type) (N : NumOps T) (X : NumLit T) (nrows ncols : Z)
+         (codes fd idx bufd bufu : list Z) (n : nat),
+       Datatypes.length codes = 9%nat ->
+       Z.of_nat (Datatypes.length fd) = nrows * ncols ->
+       Datatypes.length bufd = Datatypes.length idx ->
+       Datatypes.length bufu = (9 * Datatypes.length idx)%nat ->
+       (Datatypes.length idx < n)%nat ->
+       (9 < n)%nat ->
+       (exists (r : Z) (out : list Z),
+          exec_fun N X program (S n) "c_downstream"
+            [AVI nrows; AVI ncols; AVArrI codes; AVArrI fd; AVI (zlen idx); AVArrI idx; AVArrI bufd] =
+          Ok (RI r, [VArrI codes; VArrI fd; VArrI idx; VArrI out])) /\
+       (exists (r : Z) (out : list Z),
+          exec_fun N X program (S n) "c_upstream"
+            [AVI nrows; AVI ncols; AVArrI codes; AVArrI fd; AVI (zlen idx); AVArrI idx; AVArrI bufu] =
+          Ok (RI r, [VArrI codes; VArrI fd; VArrI idx; VArrI out])).
+Proof. exact @KernelFlow.kernel_flow_memsafe. Qed.
+Print Assumptions C05_kernel_flow_memsafe.
